@@ -622,3 +622,102 @@ func flowsToResult(f *ssa.Function, v ssa.Value, idx int) bool {
 	}
 	return false
 }
+
+// X7 decoded objects own their storage: the inlined extra data section of a slab is shared by every
+// inlined container decoded from that slab; no slice, map or pointer reachable from it by loads alone
+// may be stored into a freshly built slab, element list or extra data (a clone made by a call is fine).
+func ruleX7(p *Prog, r *Report) {
+	const R = "X7"
+	scope, _ := p.decodeScope()
+	n := 0
+	isSharedParam := func(v ssa.Value) bool {
+		prm, ok := v.(*ssa.Parameter)
+		if !ok {
+			return false
+		}
+		sl, ok := prm.Type().Underlying().(*types.Slice)
+		if !ok {
+			return false
+		}
+		nt := namedOf(sl.Elem())
+		return nt != nil && nt.Obj().Name() == "ExtraData"
+	}
+	var derived func(v ssa.Value, depth int) bool
+	derived = func(v ssa.Value, depth int) bool {
+		if depth > 12 {
+			return false
+		}
+		v = canon(v)
+		if isSharedParam(v) {
+			return true
+		}
+		switch x := v.(type) {
+		case *ssa.UnOp:
+			if x.Op == token.MUL {
+				return derived(x.X, depth+1)
+			}
+		case *ssa.FieldAddr:
+			return derived(x.X, depth+1)
+		case *ssa.Field:
+			return derived(x.X, depth+1)
+		case *ssa.IndexAddr:
+			return derived(x.X, depth+1)
+		case *ssa.Index:
+			return derived(x.X, depth+1)
+		case *ssa.TypeAssert:
+			return derived(x.X, depth+1)
+		case *ssa.Extract:
+			if ta, ok := x.Tuple.(*ssa.TypeAssert); ok && x.Index == 0 {
+				return derived(ta.X, depth+1)
+			}
+		case *ssa.Slice:
+			return derived(x.X, depth+1)
+		case *ssa.Phi:
+			for _, e := range x.Edges {
+				if derived(e, depth+1) {
+					return true
+				}
+			}
+		}
+		return false
+	}
+	for _, f := range sortedFuncs(p, scope) {
+		has := false
+		for _, prm := range f.Params {
+			if isSharedParam(prm) {
+				has = true
+			}
+		}
+		if !has {
+			continue
+		}
+		ord := map[string]int{}
+		eachInstr(f, func(in ssa.Instruction) {
+			st, ok := in.(*ssa.Store)
+			if !ok {
+				return
+			}
+			fr, ok := asFieldAddr(st.Addr)
+			if !ok || rootOfAddr(st.Addr) != "fresh" {
+				return
+			}
+			switch st.Val.Type().Underlying().(type) {
+			case *types.Slice, *types.Map, *types.Pointer:
+			default:
+				return
+			}
+			n++
+			key := fr.Field
+			if fr.Owner != nil {
+				key = fr.Owner.Obj().Name() + "." + fr.Field
+			}
+			ord[key]++
+			cons := fmt.Sprintf("decoded-field-owned:%s:%s", p.Name(f), key)
+			if ord[key] > 1 {
+				cons += fmt.Sprintf("#%d", ord[key])
+			}
+			r.Decide(!derived(st.Val, 0), R, cons, p.InstrPos(in), "the decoded object's field receives a fresh or cloned value", "the decoded object's field aliases the slab's shared inlined extra data: every inlined container decoded from the same slab would share (and mutate) this storage")
+		})
+	}
+	r.Floor(R, "reference-typed fields set by decoders of inlined containers", 6, n)
+}
